@@ -194,6 +194,38 @@ def main(tier):
                         run.dist('probe:unconstructible')
                         continue
                     probes.append((cid, peer, d, e, hy))
+            # (a') the same with --focusworkload: the base report is list's focused report, and the focused workload's exposure data is unchanged
+            fcmds, fmeta = [], []
+            for cid, W in scen:
+                if res[cid]['obs']['outcome'] != 'ok' or r.random() > 0.3:
+                    continue
+                w = r.choice(W['workloads'])
+                nm = w['owner']['name'] if w.get('owner') else w['name']
+                focus = r.choice([nm, w['ns'] + '/' + nm])
+                dd = h.dir_for('f%d' % cid)
+                gen.write_dir(dd, [m for m, _ in res[cid]['docs']])
+                fcmds += [{'id': 'fx', 'cmd': 'list', 'dir': dd, 'exposure': True, 'focus': focus}, {'id': 'fb', 'cmd': 'list', 'dir': dd, 'focus': focus}]
+                fmeta.append((cid, W, focus))
+            fouts = h.run(fcmds) if fcmds else []
+            for j, (cid, W, focus) in enumerate(fmeta):
+                fx, fb = fouts[2 * j], fouts[2 * j + 1]
+                run.dist('focus-pairs')
+                payload = {'kind': 'exposure-focus', 'world': W, 'focus': focus, 'manifests': [m for m, _ in res[cid]['docs']],
+                           'how': 'k8snetpolicy list --dirpath DIR --exposure --focusworkload F  vs  the same without --exposure / without --focusworkload'}
+                if fb['outcome'] == 'ok' and (fx['outcome'] != 'ok' or conns_key(fx) != conns_key(fb)):
+                    run.report(None, 'fbase-%d' % cid, dict(payload, with_exposure=fx.get('conns'), without=fb.get('conns'), error=fx.get('err')),
+                               'with --focusworkload, list --exposure reports other connectivity than list')
+                    continue
+                if fx['outcome'] != 'ok':
+                    continue
+                full = {x['peer']: x for x in (res[cid]['obs'].get('exposure') or [])}
+                def canon(x):
+                    return json.dumps({k: (sorted(json.dumps(e, sort_keys=True) for e in x[k]) if isinstance(x[k], list) else x[k]) for k in x}, sort_keys=True)
+                for x in fx.get('exposure') or []:
+                    if x['peer'] not in full or canon(full[x['peer']]) != canon(x):
+                        run.report(None, 'fexp-%d' % cid, dict(payload, focused=x, unfocused=full.get(x['peer'])),
+                                   'the exposure data of the focused workload differs from its exposure data without --focusworkload')
+                        break
             # (b) model correspondence
             for cid, code in mm[:4]:
                 W = byid[cid]
